@@ -12,7 +12,7 @@ and every value returned by the (generated) final exponentiation on a non-zero i
 Property theorems only; proofs in `Proofs/GtCapstone.lean`.  Objects: as in `Properties/C07.lean`
 (`Impl.exponentiateGt`, `Impl.xadic`, `Driver.xrandModel`, the generated `Fq12.*` routines), `Fq12 = Q12 (Fin q)` with
 the Spec's schoolbook ring operations (a field: `instFieldFq12`), `x ^ n` the monoid power, `x⁻¹` the Spec inverse
-`Q12.inv`.  Still not covered: `exponentiate_gt_nodiv` (no Impl model) and the probabilistic reading of "uniformly
+`Q12.inv`.  `exponentiate_gt_nodiv` is covered in `Properties/C07c.lean`; still not covered: the probabilistic reading of "uniformly
 chosen" beyond the bijection `C07.xrand_digits_unique` / `C07.xrand_digits_exist`.
 -/
 import JediVerif.Proofs.GtCapstone
